@@ -8358,13 +8358,14 @@ func (stmt *DropTableStmt) execAt(ctx context.Context, tx *SQLTx, params map[str
 	}
 
 	// delete checks
-	for name := range table.checkConstraints {
+	for _, check := range table.checkConstraints {
+		// same key as persistCheck / persistCheckDeletion: the constraint id, not its name
 		key := MapKey(
 			tx.sqlPrefix(),
 			catalogCheckPrefix,
 			EncodeID(DatabaseID),
 			EncodeID(table.id),
-			[]byte(name),
+			EncodeID(check.id),
 		)
 
 		if err := tx.delete(ctx, key); err != nil {
